@@ -197,6 +197,13 @@ def ctes_coq(seg, tab):
     return listlit(items)
 
 
+BASE_ID = {"A": 1, "B": 2, "C": 3, "D": 4}
+
+
+def base_of(d):
+    return natlit(BASE_ID[cc.df_base(d)])
+
+
 def frame_of(d, data):
     cols, rows = df_frame(d, data)
     return rel.frame_coq(cols, rows)
@@ -215,7 +222,7 @@ def case_coq(case, lin, impl, exported="None", spec_only=False):
     steps = []
     for i, st in enumerate(case["steps"]):
         sb = lin["same_branch"][i] if i < len(lin["same_branch"]) else False
-        steps.append(f"(mkStep {frame_of(st['right'], case['data'])} {ctes_coq(tabs[i + 1], i + 1)} "
+        steps.append(f"(mkStep {frame_of(st['right'], case['data'])} {base_of(st['right'])} {ctes_coq(tabs[i + 1], i + 1)} "
                      f"{on_coq(st['on'], case, lin, i)} {strlit(st['how'])} {boollit(sb)})")
     fin = case.get("fin")
     if fin is None:
@@ -224,7 +231,7 @@ def case_coq(case, lin, impl, exported="None", spec_only=False):
         fin_t = f"(FWhere {ue_coq(fin[1], case, lin, None)})"
     else:
         fin_t = "(FSelect " + listlit([f"({ue_coq(e, case, lin, None)}, {strlit(o)})" for e, o in fin[1]]) + ")"
-    return (f"(mkJCase {frame_of(case['left'], case['data'])} {ctes_coq(tabs[0], 0)} {listlit(steps)} {fin_t} "
+    return (f"(mkJCase {frame_of(case['left'], case['data'])} {base_of(case['left'])} {ctes_coq(tabs[0], 0)} {listlit(steps)} {fin_t} "
             f"{obs_coq(impl)} {exported})")
 
 
